@@ -104,6 +104,26 @@ def array_separators(rep, R, facts):
                     trailing_detail = f'condition reads {names}, expected trailing_comma() and is_empty()'
             except Unanalysable as e:
                 trailing_detail = str(e)
+    if not first_ok:
+        # the peeled form: the first element is written on its own (no separator), every further element by a loop that writes the
+        # separator unconditionally before the element
+        nodes = list(walk(b['body']))
+        pos = {id(n): i for i, n in enumerate(nodes)}
+        is_enc = lambda x: x.get('k') in ('call', 'mcall') and any(c.endswith('encode_value') for c in __import__('verif.core', fromlist=['callee_all']).callee_all(x))
+        is_sep = lambda x: x.get('k') == 'mcall' and x.get('name') == 'val_sep'
+        firsts = [n for n in nodes if n.get('k') == 'if' and peel(n['cond']).get('k') == 'letexpr' and
+                  any(x.get('k') == 'mcall' and x.get('name') == 'next' for x in walk(peel(n['cond'])['init'])) and
+                  any(is_enc(x) for x in walk(n['then'])) and not any(is_sep(x) for x in walk(n['then'])) and 'else' not in n]
+        loops = [n for n in nodes if n.get('k') == 'loop' and any(is_enc(x) for x in walk(n)) and any(is_sep(x) for x in walk(n))]
+        if len(firsts) == 1 and len(loops) == 1 and pos[id(firsts[0])] < pos[id(loops[0])]:
+            lp = loops[0]
+            seps = [x for x in walk(lp) if is_sep(x)]
+            encs = [x for x in walk(lp) if is_enc(x)]
+            uncond = all(not any(isinstance(c, dict) for c in conditions_above(lp, x)) for x in seps + encs)
+            order = len(seps) == 1 and len(encs) == 1 and pos[id(seps[0])] < pos[id(encs[0])]
+            # nothing else writes an element
+            others = [x for x in nodes if is_enc(x) and not any(x is y for y in walk(firsts[0])) and not any(x is y for y in walk(lp))]
+            first_ok = uncond and order and not others
     rep.check(R, 'encode_array|separator-all-but-first', first_ok, 'val_sep for i != 0', 'the element separator is not emitted for exactly the elements after the first', loc)
     rep.check(R, 'encode_array|trailing-comma-flag', trailing_ok, 'trailing comma iff trailing_comma() && !is_empty()',
               f'the trailing comma is not printed exactly when trailing_comma() && !is_empty(): {trailing_detail}', loc)
